@@ -412,6 +412,7 @@ func nsRemoteOK(offsets []int, n int) bool {
 //@ ensures depth: len(*nss) == old(len(*nss))+1
 //@ ensures empty: len((*nss)[len(*nss)-1].endOffsets) == 0 && len((*nss)[len(*nss)-1].allUnquotedNames) == 0 && (*nss)[len(*nss)-1].mapNames == nil
 //@ ensures below: vForall(0, old(len(*nss)), func(i int) bool { return sameValue((*nss)[i], old((*nss)[i])) })
+//@ ensures alias: sameOrFresh(*nss, old(*nss))
 
 //@ func (*objectNamespaceStack).pop
 //@ property C18 C08 C20
@@ -430,3 +431,19 @@ func nsRemoteOK(offsets []int, n int) bool {
 
 //@ func (*state).needObjectValue
 //@ inline
+
+// insertQuoted / InsertUnquoted (objectNamespace.insert) use a Go map once the
+// namespace grows; maps are outside the verifier's subset, so this contract is
+// NOT proved. It states only the frame (the namespace's own fields) and is
+// listed as an assumption in every evidence file that depends on it; the
+// duplicate-name semantics of insert is not decided by this framework.
+//
+//@ func (*objectNamespace).insertQuoted
+//@ trusted NOT PROVED: objectNamespace.insert uses Go maps (outside the subset); frame-only contract
+//@ requires ns != nil && (isVerbatim ==> len(name) >= 2)
+//@ modifies ns.endOffsets, ns.allUnquotedNames, ns.mapNames
+
+//@ func (*objectNamespace).InsertUnquoted
+//@ trusted NOT PROVED: objectNamespace.insert uses Go maps (outside the subset); frame-only contract
+//@ requires ns != nil
+//@ modifies ns.endOffsets, ns.allUnquotedNames, ns.mapNames
